@@ -459,6 +459,10 @@ def main(argv=None):
             from harness import factory_common
 
             return factory_common.replay(ctx, data)
+        if isinstance(data, dict) and data.get("op") == "state-carry":
+            from harness import statecarry
+
+            return statecarry.replay(data)
         return mod.replay(ctx, data)
     try:
         ctx.ensure_static()
@@ -467,6 +471,10 @@ def main(argv=None):
         from harness import factory_common
 
         factory_common.run(ctx)
+        # sequences of public calls: the property holds for a call whatever was called before it in the process
+        from harness import statecarry
+
+        statecarry.run_for(ctx, pid)
     except Exception as ex:  # machinery failure is reported, never silently passed
         import traceback
 
